@@ -273,7 +273,7 @@ pub fn generate(tier: &str, seed: u64, out: &mut Out) {
     }
 
     // ---- random long histories over random pools
-    let n = if thorough { 1200 } else { 150 };
+    let n = if thorough { 2500 } else { 400 };
     for i in 0..n {
         let mut pool: Vec<Vec<Cp>> = vec![];
         let np = r.range(3, 7) as usize;
